@@ -579,9 +579,15 @@ static void prop(Tape &t, Ctx &c) {
         bool mdone = L.M.hs_complete() && !L.M.failed, odone = L.O->handshake_done() && !L.O->failed();
         if (!(mdone && odone)) {
             int as = L.O->fatal_alert_sent(), ar = L.O->fatal_alert_received();
-            std::string sig = as >= 0 ? fmt("handshake-failed:openssl-rejects-matrixssl-alert-%d", as)
-                            : ar >= 0 ? fmt("handshake-failed:matrixssl-rejects-openssl-alert-%d", ar)
-                            : L.M.failed ? fmt("handshake-failed:matrixssl-error-%d", L.M.last_rc) : std::string("handshake-failed:stalled");
+            // signature = symptom + coarse context (protocol generation, key-schedule hash, full/resumed, HRR), so that distinct root causes get distinct signatures
+            bool sha384 = strstr(sd.std_name, "SHA384") != nullptr;
+            std::string ctx = fmt("%s:%s:%s%s", k.ver == TLS13 ? "tls13" : k.ver == TLS12 ? "tls12" : k.ver == TLS11 ? "tls11" : "dtls", sha384 ? "sha384" : "sha256",
+                                  conn == 1 ? "resuming" : "full", L.O->saw_hello_retry() ? ":hrr" : "");
+            std::string sig = as >= 0 ? fmt("handshake-failed:openssl-rejects-matrixssl-alert-%d:%s", as, ctx.c_str())
+                            : ar >= 0 ? fmt("handshake-failed:matrixssl-rejects-openssl-alert-%d:%s", ar, ctx.c_str())
+                            : L.M.failed ? fmt("handshake-failed:matrixssl-error-%d:%s", L.M.last_rc, ctx.c_str()) : "handshake-failed:stalled:" + ctx;
+            if (ar == 42 && g_cb_info.find("authStatus=-39") != std::string::npos) sig = "valid-chain-rejected:self-signed-root-in-chain-fails-authkey-check";
+            if (as == 116 && k.cauth) sig = fmt("client-certificate-not-sent:%s", ALL_IDENTS[k.cident].name);
             VF_FAIL(sig, "conn %d: handshake did not complete (matrixssl complete=%d failed=%d rc=%d; openssl done=%d err='%s' alerts=%s trace=%s; matrixssl cert callback: calls=%d alert=%d %s); %s",
                     conn, (int) L.M.hs_complete(), (int) L.M.failed, L.M.last_rc, (int) L.O->handshake_done(), L.O->error().c_str(), alerts_str(*L.O).c_str(), L.O->hs_trace().c_str(), g_cb_calls, g_cb_last_alert, g_cb_info.c_str(), desc.c_str());
         }
@@ -667,11 +673,11 @@ static void prop(Tape &t, Ctx &c) {
         c.count(std::string("ver:") + ver_name(k.ver));
         c.count(std::string("role:") + (k.mx_client ? "mx-client" : "mx-server"));
         c.count(std::string("suite:") + sd.std_name);
-        c.count(std::string("conn:") + (ores ? resume_name[k.resume] : "full"));
+        c.count(std::string("conn:") + (k.mx_client ? "mx-client:" : "mx-server:") + (ores ? resume_name[k.resume] : "full"));
         if (!grp.empty()) c.count("group:" + grp);
         if (hrr) c.count("hello-retry-request");
-        if (!psig.empty()) c.count(std::string(k.mx_client ? "sig-by-openssl:" : "sig-by-matrixssl:") + psig), (void) 0;
-        if (!osig.empty()) c.count(std::string("own-sig-openssl:") + osig);
+        if (!psig.empty()) c.count(std::string(k.mx_client ? "signed-by-matrixssl(client CertificateVerify):" : "signed-by-matrixssl(server):") + psig);
+        if (!osig.empty()) c.count(std::string(k.mx_client ? "signed-by-openssl(server):" : "signed-by-openssl(client CertificateVerify):") + osig);
         if (full && sid_) c.count(std::string("srv-ident:") + sid_->name);
         if (full && k.cauth) c.count(std::string("client-auth:") + cid_->name);
         if (k.ver != TLS13) c.count(fmt("ems:mx=%d,ossl=%d", k.mx_ems, (int) k.os_ems));
